@@ -41,20 +41,20 @@ Ltac finish_opt H1 H2 L12 Lo :=
   norm_hyps;
   first
   [ solve [exfalso; match goal with H : ~ (_ /\ _) |- _ => apply H; split; [reflexivity | assumption] end]
-  | unfold do_fill; same_operand;
+  | same_operand;
     split; [ reads; pointwise_opt H1 H2 L12 Lo; subst_scalars; rewrite ?nf_of0;
              try (field; auto); try zero_is_one
            | intros j Hj; reads; reflexivity ] ].
 
 Lemma tree_no_rec_opt (rc : env (option T) -> store (option T) -> outcome (option T)) (r : regime)
-      (a b : T) (i1 i2 io : nat) (s : store (option T)) (x1 x2 : list T) :
-  r <> Direct -> ~ (i1 = i2 /\ b <> nzero) ->
+      (bi : blasinfo) (a b : T) (i1 i2 io : nat) (s : store (option T)) (x1 x2 : list T) :
+  r <> Direct -> bi_ok r bi -> ~ (i1 = i2 /\ b <> nzero) ->
   s i1 = map Some x1 -> s i2 = map Some x2 ->
   length x1 = length x2 -> length (s io) = length x1 ->
   post_opt a x1 b x2 io s
-    (exec_list rc r {| e_a := Some a; e_b := Some b; e_x1 := i1; e_x2 := i2; e_out := io |} alias_tree s).
+    (exec_list rc r bi {| e_a := Some a; e_b := Some b; e_x1 := i1; e_x2 := i2; e_out := io |} alias_tree s).
 Proof.
-  intros Hr Hnr H1 H2 L12 Lo.
+  intros Hr Hbi Hnr H1 H2 L12 Lo.
   unfold post_opt, alias_tree.
   cbn [exec_list exec bind cval opnd sval e_a e_b e_x1 e_x2 e_out].
   opt_ops.
@@ -64,7 +64,8 @@ Proof.
     all: unfold_prims; opt_ops.
     all: use_eqs.
     all: finish_opt H1 H2 L12 Lo.
-  - split_ids.
+  - destruct bi as [bv bc]. destruct (Hbi eq_refl) as [Hv Hc]. cbn in Hv, Hc. subst bv bc.
+    split_ids.
     all: repeat split_if.
     all: unfold_prims; opt_ops.
     all: use_eqs.
@@ -72,9 +73,9 @@ Proof.
 Qed.
 
 Lemma tree_rec_opt (rc : env (option T) -> store (option T) -> outcome (option T)) (r : regime)
-      (a b : T) (i1 io : nat) (s : store (option T)) :
+      (bi : blasinfo) (a b : T) (i1 io : nat) (s : store (option T)) :
   b <> nzero ->
-  exec_list rc r {| e_a := Some a; e_b := Some b; e_x1 := i1; e_x2 := i1; e_out := io |} alias_tree s =
+  exec_list rc r bi {| e_a := Some a; e_b := Some b; e_x1 := i1; e_x2 := i1; e_out := io |} alias_tree s =
   bind (rc {| e_a := Some (a + b); e_b := Some (of_Z 0); e_x1 := i1; e_x2 := i1; e_out := io |} s)
        (fun s0 => Ok s0).
 Proof.
@@ -86,17 +87,17 @@ Proof.
   destruct (rc _ s); reflexivity.
 Qed.
 
-Lemma direct_opt (fuel : nat) (a b : T) (i1 i2 io : nat) (s : store (option T)) (x1 x2 : list T) :
+Lemma direct_opt (fuel : nat) (bi : blasinfo) (a b : T) (i1 i2 io : nat) (s : store (option T)) (x1 x2 : list T) :
   s i1 = map Some x1 -> s i2 = map Some x2 -> length x1 = length x2 ->
   post_opt a x1 b x2 io s
-    (lincomb_fuel (S fuel) (fun u => u) Direct
+    (lincomb_fuel (S fuel) (fun u => u) Direct bi
        {| e_a := Some a; e_b := Some b; e_x1 := i1; e_x2 := i2; e_out := io |} s).
 Proof.
   intros H1 H2 L12.
   assert (L : length (s i1) = length (s i2)) by (rewrite H1, H2, !map_length; exact L12).
-  pose proof (direct_exact (fun u : option T => u) fuel (Some a) (Some b) i1 i2 io s L) as P.
+  pose proof (direct_exact (fun u : option T => u) fuel bi (Some a) (Some b) i1 i2 io s L) as P.
   unfold post, post_opt in *.
-  destruct (lincomb_fuel _ _ Direct _ s) as [s' | | |]; try contradiction.
+  destruct (lincomb_fuel _ _ Direct bi _ s) as [s' | | |]; try contradiction.
   destruct P as [Po Pf]. split; [|exact Pf].
   rewrite Po, map_id, H1, H2.
   apply nth_error_ext; intro k. unfold vlin.
@@ -104,54 +105,55 @@ Proof.
   destruct (nth_error x1 k), (nth_error x2 k); reflexivity.
 Qed.
 
-Theorem lincomb_fuel_poison (r : regime) (a b : T) (i1 i2 io : nat) (s : store (option T)) (x1 x2 : list T) :
+Theorem lincomb_fuel_poison (r : regime) (bi : blasinfo) (a b : T) (i1 i2 io : nat) (s : store (option T)) (x1 x2 : list T) :
+  bi_ok r bi ->
   s i1 = map Some x1 -> s i2 = map Some x2 ->
   length x1 = length x2 -> length (s io) = length x1 ->
   post_opt a x1 b x2 io s
-    (lincomb_fuel 2 (fun u => u) r {| e_a := Some a; e_b := Some b; e_x1 := i1; e_x2 := i2; e_out := io |} s).
+    (lincomb_fuel 2 (fun u => u) r bi {| e_a := Some a; e_b := Some b; e_x1 := i1; e_x2 := i2; e_out := io |} s).
 Proof.
-  intros H1 H2 L12 Lo.
+  intros Hbi H1 H2 L12 Lo.
   assert (Hz : ~ (i1 = i1 /\ of_Z 0 <> @nzero T _)) by (intros [_ Hz]; apply Hz; apply nf_of0).
   destruct r.
   - apply direct_opt; assumption.
   - destruct (Nat.eq_dec i1 i2) as [E12 | N12];
       [destruct (neqb b nzero) eqn:Eb; [apply nf_eqb in Eb | apply neqb_false in Eb] |].
-    + change (post_opt a x1 b x2 io s (exec_list (lincomb_fuel 1 (fun u => u) Fallback) Fallback
+    + change (post_opt a x1 b x2 io s (exec_list (lincomb_fuel 1 (fun u => u) Fallback bi) Fallback bi
               {| e_a := Some a; e_b := Some b; e_x1 := i1; e_x2 := i2; e_out := io |} alias_tree s)).
       apply tree_no_rec_opt; try assumption; [congruence | tauto].
     + subst i2. assert (x1 = x2) by (apply map_Some_inj; congruence). subst x2.
-      change (post_opt a x1 b x1 io s (exec_list (lincomb_fuel 1 (fun u => u) Fallback) Fallback
+      change (post_opt a x1 b x1 io s (exec_list (lincomb_fuel 1 (fun u => u) Fallback bi) Fallback bi
               {| e_a := Some a; e_b := Some b; e_x1 := i1; e_x2 := i1; e_out := io |} alias_tree s)).
       rewrite tree_rec_opt by exact Eb.
-      change (lincomb_fuel 1 (fun u => u) Fallback ?e s)
-        with (exec_list (lincomb_fuel 0 (fun u : option T => u) Fallback) Fallback e alias_tree s).
-      pose proof (tree_no_rec_opt (lincomb_fuel 0 (fun u => u) Fallback) Fallback (a + b) (of_Z 0) i1 i1 io s x1 x1) as P.
-      destruct (exec_list _ Fallback _ alias_tree s) as [s' | | |]; cbn [bind post_opt] in *.
+      change (lincomb_fuel 1 (fun u => u) Fallback bi ?e s)
+        with (exec_list (lincomb_fuel 0 (fun u : option T => u) Fallback bi) Fallback bi e alias_tree s).
+      pose proof (tree_no_rec_opt (lincomb_fuel 0 (fun u => u) Fallback bi) Fallback bi (a + b) (of_Z 0) i1 i1 io s x1 x1) as P.
+      destruct (exec_list _ Fallback bi _ alias_tree s) as [s' | | |]; cbn [bind post_opt] in *.
       * rewrite vlin_merge in P. apply P; try assumption; congruence.
       * apply P; try assumption; congruence.
       * apply P; try assumption; congruence.
       * apply P; try assumption; congruence.
-    + change (post_opt a x1 b x2 io s (exec_list (lincomb_fuel 1 (fun u => u) Fallback) Fallback
+    + change (post_opt a x1 b x2 io s (exec_list (lincomb_fuel 1 (fun u => u) Fallback bi) Fallback bi
               {| e_a := Some a; e_b := Some b; e_x1 := i1; e_x2 := i2; e_out := io |} alias_tree s)).
       apply tree_no_rec_opt; try assumption; [congruence | tauto].
   - destruct (Nat.eq_dec i1 i2) as [E12 | N12];
       [destruct (neqb b nzero) eqn:Eb; [apply nf_eqb in Eb | apply neqb_false in Eb] |].
-    + change (post_opt a x1 b x2 io s (exec_list (lincomb_fuel 1 (fun u => u) Blas) Blas
+    + change (post_opt a x1 b x2 io s (exec_list (lincomb_fuel 1 (fun u => u) Blas bi) Blas bi
               {| e_a := Some a; e_b := Some b; e_x1 := i1; e_x2 := i2; e_out := io |} alias_tree s)).
       apply tree_no_rec_opt; try assumption; [congruence | tauto].
     + subst i2. assert (x1 = x2) by (apply map_Some_inj; congruence). subst x2.
-      change (post_opt a x1 b x1 io s (exec_list (lincomb_fuel 1 (fun u => u) Blas) Blas
+      change (post_opt a x1 b x1 io s (exec_list (lincomb_fuel 1 (fun u => u) Blas bi) Blas bi
               {| e_a := Some a; e_b := Some b; e_x1 := i1; e_x2 := i1; e_out := io |} alias_tree s)).
       rewrite tree_rec_opt by exact Eb.
-      change (lincomb_fuel 1 (fun u => u) Blas ?e s)
-        with (exec_list (lincomb_fuel 0 (fun u : option T => u) Blas) Blas e alias_tree s).
-      pose proof (tree_no_rec_opt (lincomb_fuel 0 (fun u => u) Blas) Blas (a + b) (of_Z 0) i1 i1 io s x1 x1) as P.
-      destruct (exec_list _ Blas _ alias_tree s) as [s' | | |]; cbn [bind post_opt] in *.
+      change (lincomb_fuel 1 (fun u => u) Blas bi ?e s)
+        with (exec_list (lincomb_fuel 0 (fun u : option T => u) Blas bi) Blas bi e alias_tree s).
+      pose proof (tree_no_rec_opt (lincomb_fuel 0 (fun u => u) Blas bi) Blas bi (a + b) (of_Z 0) i1 i1 io s x1 x1) as P.
+      destruct (exec_list _ Blas bi _ alias_tree s) as [s' | | |]; cbn [bind post_opt] in *.
       * rewrite vlin_merge in P. apply P; try assumption; congruence.
       * apply P; try assumption; congruence.
       * apply P; try assumption; congruence.
       * apply P; try assumption; congruence.
-    + change (post_opt a x1 b x2 io s (exec_list (lincomb_fuel 1 (fun u => u) Blas) Blas
+    + change (post_opt a x1 b x2 io s (exec_list (lincomb_fuel 1 (fun u => u) Blas bi) Blas bi
               {| e_a := Some a; e_b := Some b; e_x1 := i1; e_x2 := i2; e_out := io |} alias_tree s)).
       apply tree_no_rec_opt; try assumption; [congruence | tauto].
 Qed.
@@ -161,14 +163,14 @@ Lemma neqb_refl (x : T) : neqb x x = true.
 Proof. apply nf_eqb. reflexivity. Qed.
 
 (* from THRESHOLD_SMALL entries on (floating dtype) the all-aliased branch writes zeros *)
-Lemma set_zero_nondirect (r : regime) (i : nat) (s : store (option T)) :
-  r <> Direct ->
-  exists s', lincomb_fuel 2 (fun u => u) r
+Lemma set_zero_nondirect (r : regime) (bi : blasinfo) (i : nat) (s : store (option T)) :
+  r <> Direct -> bi_ok r bi ->
+  exists s', lincomb_fuel 2 (fun u => u) r bi
                {| e_a := of_Z 0; e_b := of_Z 0; e_x1 := i; e_x2 := i; e_out := i |} s = Ok s'
           /\ s' i = map (fun _ => Some nzero) (s i)
           /\ forall j, j <> i -> s' j = s j.
 Proof.
-  intros Hr.
+  intros Hr Hbi.
   assert (E0 : neqb (@of_Z T _ 0) (of_Z 0) = true) by apply neqb_refl.
   assert (E1 : neqb (@of_Z T _ 0 + of_Z 0) (of_Z 0) = true).
   { apply nf_eqb. rewrite nf_of0. ring. }
@@ -176,22 +178,23 @@ Proof.
   - cbn [lincomb_fuel]. unfold alias_tree.
     cbn [exec_list exec bind cval opnd sval e_a e_b e_x1 e_x2 e_out]. opt_ops.
     rewrite Nat.eqb_refl, E0, E1. cbn [andb negb bind].
-    eexists. split; [reflexivity|]. unfold do_fill. split.
+    eexists. split; [reflexivity|]. cbn [do_fill]. split.
     + rewrite upd_same. opt_ops. rewrite nf_of0. reflexivity.
     + intros j Hj. rewrite upd_other by assumption. reflexivity.
-  - cbn [lincomb_fuel]. unfold alias_tree.
+  - destruct bi as [bv bc]. destruct (Hbi eq_refl) as [Hv Hc]. cbn in Hv, Hc. subst bv bc.
+    cbn [lincomb_fuel]. unfold alias_tree.
     cbn [exec_list exec bind cval opnd sval e_a e_b e_x1 e_x2 e_out]. opt_ops.
     rewrite Nat.eqb_refl, E0, E1. cbn [andb negb bind].
-    eexists. split; [reflexivity|]. unfold do_fill. split.
+    eexists. split; [reflexivity|]. cbn [do_fill bi_view]. split.
     + rewrite upd_same. opt_ops. rewrite nf_of0. reflexivity.
     + intros j Hj. rewrite upd_other by assumption. reflexivity.
 Qed.
 
 (* below THRESHOLD_SMALL entries (or for a non-floating dtype) 0*y + 0*y is evaluated:
    garbage survives *)
-Lemma set_zero_direct_poison (i : nat) (s : store (option T)) :
+Lemma set_zero_direct_poison (bi : blasinfo) (i : nat) (s : store (option T)) :
   s i = [None] ->
-  exists s', lincomb_fuel 2 (fun u => u) Direct
+  exists s', lincomb_fuel 2 (fun u => u) Direct bi
                {| e_a := of_Z 0; e_b := of_Z 0; e_x1 := i; e_x2 := i; e_out := i |} s = Ok s'
           /\ s' i = [None].
 Proof.
@@ -200,27 +203,28 @@ Proof.
   eexists. split; [reflexivity|]. rewrite upd_same, Hs. reflexivity.
 Qed.
 
-Lemma lincomb_poison_ok (r : regime) (a b : T) (i1 i2 io : nat) (s : store (option T)) (x1 x2 : list T) :
+Lemma lincomb_poison_ok (r : regime) (bi : blasinfo) (a b : T) (i1 i2 io : nat) (s : store (option T)) (x1 x2 : list T) :
+  bi_ok r bi ->
   s i1 = map Some x1 -> s i2 = map Some x2 ->
   length x1 = length x2 -> length (s io) = length x1 ->
-  exists s', lincomb_fuel 2 (fun u => u) r
+  exists s', lincomb_fuel 2 (fun u => u) r bi
                {| e_a := Some a; e_b := Some b; e_x1 := i1; e_x2 := i2; e_out := io |} s = Ok s'
           /\ s' io = map Some (vlin a x1 b x2)
           /\ forall j, j <> io -> s' j = s j.
 Proof.
-  intros H1 H2 L12 Lo.
-  pose proof (lincomb_fuel_poison r a b i1 i2 io s x1 x2 H1 H2 L12 Lo) as P.
-  unfold post_opt in P. destruct (lincomb_fuel _ _ _ _ s) as [s' | | |]; [eauto | contradiction | contradiction | contradiction].
+  intros Hbi H1 H2 L12 Lo.
+  pose proof (lincomb_fuel_poison r bi a b i1 i2 io s x1 x2 Hbi H1 H2 L12 Lo) as P.
+  unfold post_opt in P. destruct (lincomb_fuel _ _ _ _ _ s) as [s' | | |]; [eauto | contradiction | contradiction | contradiction].
 Qed.
 
-Lemma set_zero_direct_counterexample :
+Lemma set_zero_direct_counterexample (bi : blasinfo) :
   exists (i : nat) (s : store (option T)) (s' : store (option T)),
-    lincomb_fuel 2 (fun u => u) Direct
+    lincomb_fuel 2 (fun u => u) Direct bi
       {| e_a := of_Z 0; e_b := of_Z 0; e_x1 := i; e_x2 := i; e_out := i |} s = Ok s'
     /\ s' i <> map (fun _ => Some nzero) (s i).
 Proof.
   exists 0%nat, (fun _ => [None]).
-  destruct (set_zero_direct_poison 0%nat (fun _ => [None]) eq_refl) as (s' & E & Hs).
+  destruct (set_zero_direct_poison bi 0%nat (fun _ => [None]) eq_refl) as (s' & E & Hs).
   exists s'. split; [exact E | rewrite Hs; cbn; discriminate].
 Qed.
 
